@@ -32,6 +32,9 @@ def _job(a):
     if kind == "L3":
         from . import c01_l3
         return c01_l3.job((c, sh[0], sh[1]))
+    if kind == "AST":
+        from . import c01_ast
+        return c01_ast.job((c, sh))
     if kind == "cross":
         from ..bounded import Budget, time_budget
         try:
@@ -86,7 +89,14 @@ def run(tier, only=None):
         from qlasskit.qlassfun import QlassF
         l3 = [("L3", o, (src, prof)) for (o, src, prof) in c01_l3.jobs(tier)]
         rep.under_contract(QlassF.from_function, QlassF.truth_table)
-    rs = run_pool(_job, jobs + canaries + cross, chunksize=4) + run_pool(_job, l3, chunksize=2)
+    la = []
+    if not only or only in ("A", "AST"):
+        from . import c01_ast
+        from qlasskit.ast2ast.constantfolder import ConstantFolder
+        la = [("AST", k, arg) for (k, arg) in c01_ast.jobs(tier)]
+        rep.under_contract(ConstantFolder.visit_Compare, ConstantFolder.visit_BinOp, ConstantFolder.visit_UnaryOp, ConstantFolder.visit_If, ConstantFolder.visit_IfExp,
+                           ConstantFolder.visit_Call, ConstantFolder.visit_Subscript)
+    rs = run_pool(_job, jobs + canaries + cross, chunksize=4) + run_pool(_job, la, chunksize=1) + run_pool(_job, l3, chunksize=2)
     main = [r for r in rs if r.get("strength") != "aux"]
     aux = [r["aux"] for r in rs if r.get("strength") == "aux" and r["name"] == "canary"]
     crs = [r["aux"] for r in rs if r.get("strength") == "aux" and r["name"] == "cross"]
